@@ -22,10 +22,12 @@ import (
 func init() { register("C09", true, checkC09) }
 
 func checkC09(p *Prog, r *Report) {
-	r.Explain("SIG: the decision list reached from imagetype.Buf is read from the typed syntax tree as ordered (predicate → type) rules; every predicate is expanded to a DNF of byte cubes over the 24-byte window (calls, sub-slices, string comparisons, && / || with Go precedence); checked: every position < 24, per image type the cube set equals the independently written table spec/signatures.json, overlapping types are tested in the order the table requires, no rule is shadowed. FUNNEL: Scan, ScanBuf and ReadAt return Buf applied to exactly the first 24 bytes (Peek(24) / ReadAt(buf[:24],0)) and (ImageUnknown, err) on a read error. PEEKONLY: nothing reachable from ScanBuf consumes from the bufio.Reader. ERRMAP: Buf returns (ImageUnknown, ErrDataLength) below 24 bytes and ErrImageTypeNotFound exactly when the type is ImageUnknown. PEEKSZ: constant Peek sizes do not exceed constant NewReaderSize sizes in the same function. SIGPOS: for every type the recognisers named in its rule read, transitively through helpers given constant windows, only header positions that spec/signatures.json constrains for that type — decided on SSA read sets, so it also holds recognisers outside the predicate grammar to the signature.")
+	r.Explain("SIG: the decision list reached from imagetype.Buf is read from the typed syntax tree as ordered (predicate → type) rules; every predicate is expanded to a DNF of byte cubes over the 24-byte window (calls, sub-slices, string comparisons, && / || with Go precedence); checked: every position < 24, per image type the cube set equals the independently written table spec/signatures.json, overlapping types are tested in the order the table requires, no rule is shadowed. FUNNEL: Scan, ScanBuf and ReadAt return Buf applied to exactly the first 24 bytes (Peek(24) / ReadAt(buf[:24],0)) and (ImageUnknown, err) on a read error. PEEKONLY: nothing reachable from ScanBuf consumes from the bufio.Reader. ERRMAP: Buf returns (ImageUnknown, ErrDataLength) below 24 bytes and ErrImageTypeNotFound exactly when the type is ImageUnknown. PEEKSZ: constant Peek sizes do not exceed constant NewReaderSize sizes in the same function. SIGPOS: for every type the recognisers named in its rule read, transitively through helpers given constant windows, only header positions that spec/signatures.json constrains for that type — decided on SSA read sets, so it also holds recognisers outside the predicate grammar to the signature. PREFIX: the SSA read set of imagetype.Buf and of every library function it hands its argument to is bounded and below the 24-byte window.")
 	r.Trusted("bufio.Reader.Peek returns exactly n bytes or an error", "io.ReaderAt contract")
 	ruleSIG(p, r)
 	ruleSigPos(p, r)
+	rulePrefix(p, r)
+	r.Floor("PREFIX", 1)
 	r.Floor("SIGPOS", 10)
 	ruleFunnel(p, r)
 	rulePeekOnly(p, r)
@@ -675,6 +677,9 @@ func (env *predEnv) eval(e ast.Expr) (dnf, error) {
 				if a, ok := env.evalArith(x); ok {
 					return a, nil
 				}
+				if a, ok := env.evalWord(x); ok {
+					return a, nil
+				}
 			}
 			return d, err
 		case token.LSS, token.LEQ, token.GTR, token.GEQ:
@@ -705,6 +710,166 @@ func (env *predEnv) eval(e ast.Expr) (dnf, error) {
 
 // evalNeg evaluates !e by pushing the negation down the expression (De Morgan on the syntax, flipped comparison
 // operators), so that the complement never has to be taken of a large disjunction.
+// wordBytes resolves an expression built from one order-aware load of the window — binary.BigEndian.Uint32(win),
+// a single-definition local holding it, conversions to a narrower unsigned type, right shifts and masks by whole
+// bytes — into the window positions of its bytes, most significant first.
+func (env *predEnv) wordBytes(e ast.Expr, depth int) ([]int, bool) {
+	if depth > 8 {
+		return nil, false
+	}
+	switch x := stripParen(e).(type) {
+	case *ast.Ident:
+		if d, ok := env.defs[env.pkg.TypesInfo.Uses[x]]; ok {
+			return env.wordBytes(d, depth+1)
+		}
+	case *ast.CallExpr:
+		// conversion to an unsigned integer type: the low bytes
+		if tv, ok := env.pkg.TypesInfo.Types[x.Fun]; ok && tv.IsType() && len(x.Args) == 1 {
+			b, ok := tv.Type.Underlying().(*types.Basic)
+			if !ok {
+				return nil, false
+			}
+			n := 0
+			switch b.Kind() {
+			case types.Uint8:
+				n = 1
+			case types.Uint16:
+				n = 2
+			case types.Uint32:
+				n = 4
+			case types.Uint64, types.Uint:
+				n = 8
+			default:
+				return nil, false
+			}
+			in, ok := env.wordBytes(x.Args[0], depth+1)
+			if !ok {
+				return nil, false
+			}
+			if len(in) > n {
+				in = in[len(in)-n:]
+			}
+			return in, true
+		}
+		// ORDER.UintNN(win)
+		sel, ok := x.Fun.(*ast.SelectorExpr)
+		if !ok || len(x.Args) != 1 {
+			return nil, false
+		}
+		n := map[string]int{"Uint16": 2, "Uint32": 4, "Uint64": 8}[sel.Sel.Name]
+		if n == 0 {
+			return nil, false
+		}
+		rt, ok := env.pkg.TypesInfo.Types[sel.X]
+		if !ok {
+			return nil, false
+		}
+		big := false
+		switch rt.Type.String() {
+		case "encoding/binary.bigEndian":
+			big = true
+		case "encoding/binary.littleEndian":
+		default:
+			return nil, false
+		}
+		w, err := env.window(x.Args[0])
+		if err != nil {
+			return nil, false
+		}
+		if w.length >= 0 && w.length < n {
+			return nil, false
+		}
+		if w.length < 0 && w.minLen < n {
+			return nil, false
+		}
+		out := make([]int, n)
+		for i := 0; i < n; i++ {
+			if big {
+				out[i] = w.off + i
+			} else {
+				out[i] = w.off + n - 1 - i
+			}
+		}
+		return out, true
+	case *ast.BinaryExpr:
+		in, ok := env.wordBytes(x.X, depth+1)
+		if !ok {
+			return nil, false
+		}
+		kv, ok := env.constOf(x.Y)
+		if !ok {
+			return nil, false
+		}
+		k, ok := constant.Uint64Val(constant.ToInt(kv))
+		if !ok {
+			return nil, false
+		}
+		switch x.Op {
+		case token.SHR:
+			if k%8 != 0 || int(k/8) > len(in) {
+				return nil, false
+			}
+			return in[:len(in)-int(k/8)], true
+		case token.AND:
+			for m := 1; m <= len(in); m++ {
+				if k == (uint64(1)<<(8*uint(m)))-1 {
+					return in[len(in)-m:], true
+				}
+			}
+		}
+	}
+	return nil, false
+}
+
+// evalWord: <bytes of an order-aware load> ==/!= constant.
+func (env *predEnv) evalWord(x *ast.BinaryExpr) (dnf, bool) {
+	for _, pr := range [][2]ast.Expr{{x.X, x.Y}, {x.Y, x.X}} {
+		pos, ok := env.wordBytes(pr[0], 0)
+		if !ok || len(pos) == 0 {
+			continue
+		}
+		kv, ok := env.constOf(pr[1])
+		if !ok {
+			return nil, false
+		}
+		k, ok := constant.Uint64Val(constant.ToInt(kv))
+		if !ok {
+			return nil, false
+		}
+		if len(pos) < 8 && k >= uint64(1)<<(8*uint(len(pos))) {
+			if x.Op == token.NEQ {
+				return dnfTrue(), true
+			}
+			return dnfFalse(), true
+		}
+		c := cube{}
+		for i, p := range pos {
+			var bs byteset
+			bs.set(byte(k >> (8 * uint(len(pos)-1-i))))
+			if old, dup := c[p]; dup {
+				bs = bs.and(old)
+				if bs.empty() {
+					if x.Op == token.NEQ {
+						return dnfTrue(), true
+					}
+					return dnfFalse(), true
+				}
+			}
+			c[p] = bs
+		}
+		d := dnf{c}
+		if x.Op == token.NEQ {
+			n, ok := d.not()
+			if !ok {
+				return nil, false
+			}
+			return n, true
+		}
+		return d, true
+	}
+	return nil, false
+}
+
 func (env *predEnv) evalNeg(e ast.Expr) (dnf, error) {
 	switch x := e.(type) {
 	case *ast.ParenExpr:
@@ -1206,7 +1371,7 @@ func ruleSIG(p *Prog, r *Report) {
 	eachCall(bufFn, func(site ssa.CallInstruction) {
 		c := site.Common()
 		if sc := c.StaticCallee(); sc != nil && isRepoFn(sc) && len(c.Args) == 1 && c.Args[0] == ssa.Value(bufFn.Params[0]) {
-			if n, ok := sc.Signature.Results().At(0).Type().(*types.Named); ok && n.Obj().Name() == "ImageType" {
+			if n, ok := sc.Signature.Results().At(0).Type().(*types.Named); ok && n.Obj().Name() == "ImageType" && dec == nil {
 				dec = sc
 			}
 		}
